@@ -163,6 +163,36 @@ pub fn cross_decode(ctx: &mut Ctx, case: &DictCase) {
             }
         }
     }
+    // `get_block_with_key` of the real index (tantivy-fst + block-address store) against the model:
+    // separator routing of the Lean block model (= the FST under its stated contract), address
+    // read by the Lean store model from the bytes of the real file
+    if case.keys.len() <= 1500 {
+        let mut probes: Vec<Vec<u8>> = vec![vec![], vec![0xff, 0xff, 0xff, 0xff]];
+        for l in layout.iter().take(40).step_by(3) {
+            let first = case.keys[l.0 as usize].clone();
+            let last = case.keys[(l.0 + l.1 - 1) as usize].clone();
+            let mut after = last.clone();
+            after.push(0);
+            probes.push(first);
+            probes.push(last);
+            probes.push(after);
+        }
+        let real: Option<Vec<String>> = {
+            let f = |a: Option<tantivy_sstable::BlockAddr>| a.map(|a| format!("{}:{}:{}", a.first_ordinal, a.byte_range.start, a.byte_range.end)).unwrap_or_else(|| "-".to_string());
+            match case.vk.as_str() {
+                "void" => Dictionary::<VoidSSTable>::from_bytes(OwnedBytes::new(file.clone())).ok().map(|d| probes.iter().map(|k| f(d.sstable_index.get_block_with_key(k))).collect()),
+                "u64" => Dictionary::<MonotonicU64SSTable>::from_bytes(OwnedBytes::new(file.clone())).ok().map(|d| probes.iter().map(|k| f(d.sstable_index.get_block_with_key(k))).collect()),
+                _ => Dictionary::<RangeSSTable>::from_bytes(OwnedBytes::new(file.clone())).ok().map(|d| probes.iter().map(|k| f(d.sstable_index.get_block_with_key(k))).collect()),
+            }
+        };
+        if let Some(real) = real {
+            let resp = ctx.model.ask(&format!("C15 kblk {} {} {} {}", hex(&file), bl, keys_field(&case.keys), keys_field(&probes)));
+            ctx.report.count("file-block-for-key:compared");
+            if resp != real.join(";") {
+                ctx.report.violation("model", "C15:file-block-for-key-model", format!("get_block_with_key on {} probe keys: real index and Lean model (separator routing + store decoded from the file bytes) differ", probes.len()), cj.clone());
+            }
+        }
+    }
     // reverse direction (void values): blocks encoded by the model, read by the real Reader,
     // and byte-equal to what the real writer wrote
     if case.vk == "void" {
